@@ -944,6 +944,13 @@ func ruleRepTypedStore(c *Ctx, r *R) {
 			}
 			return true
 		})
+		if found == 0 {
+			// the conversion may sit in a helper that is handed the storage and the type
+			if c.convertsThroughHelper(fd, ts.Base, ts.TypeX) {
+				r.ok(key, ts.Why+" goes through a helper that assigns every element with assign("+ts.TypeX+")")
+				continue
+			}
+		}
 		switch {
 		case found == 0 || good == 0 && bad == nil:
 			r.fail(key, c.Pos(fd), fmt.Sprintf("%s: no store into %s converted with assign(%s) — %s no longer converts untyped constants/nil to the declared type", ts.Fn, ts.Base, ts.TypeX, ts.Why))
@@ -1491,3 +1498,89 @@ func usesFloatProduct(c *Ctx, fd *ast.FuncDecl) bool {
 	return found
 }
 
+
+// assignEachHelper: a new helper of the shape
+//
+//	func h(.., data []Value, .., t Type, ..) { for i, v := range data { data[i] = v.assign(t) } }
+//
+// (the store is the first statement of the loop body, under no condition). Returns the
+// indices of the data and type parameters.
+func (c *Ctx) assignEachHelper(h *ast.FuncDecl) (int, int, bool) {
+	if h == nil || h.Body == nil || h.Recv != nil {
+		return 0, 0, false
+	}
+	if o := c.Info.Defs[h.Name]; o == nil || !c.isNewHelper(o) {
+		return 0, 0, false
+	}
+	var params []types.Object
+	for _, f := range h.Type.Params.List {
+		for _, nm := range f.Names {
+			params = append(params, c.Info.Defs[nm])
+		}
+	}
+	idx := func(o types.Object) int {
+		for i, p := range params {
+			if p == o {
+				return i
+			}
+		}
+		return -1
+	}
+	for _, st := range h.Body.List {
+		rs, ok := st.(*ast.RangeStmt)
+		if !ok || len(rs.Body.List) == 0 {
+			continue
+		}
+		did, ok := unparen(rs.X).(*ast.Ident)
+		if !ok || idx(c.Obj(did)) < 0 {
+			continue
+		}
+		k, _ := rs.Key.(*ast.Ident)
+		v, _ := rs.Value.(*ast.Ident)
+		as, ok := rs.Body.List[0].(*ast.AssignStmt)
+		if k == nil || v == nil || !ok || len(as.Lhs) != 1 || len(as.Rhs) != 1 {
+			continue
+		}
+		if nosp(c.Src(as.Lhs[0])) != did.Name+"["+k.Name+"]" {
+			continue
+		}
+		call, ok := unparen(as.Rhs[0]).(*ast.CallExpr)
+		if !ok || c.CalleeName(call) != "Value.assign" || len(call.Args) != 1 {
+			continue
+		}
+		if sel, ok := unparen(call.Fun).(*ast.SelectorExpr); !ok || nosp(c.Src(sel.X)) != v.Name {
+			continue
+		}
+		tid, ok := unparen(call.Args[0]).(*ast.Ident)
+		if !ok || idx(c.Obj(tid)) < 0 {
+			continue
+		}
+		return idx(c.Obj(did)), idx(c.Obj(tid)), true
+	}
+	return 0, 0, false
+}
+
+// convertsThroughHelper: fd calls an assign-each helper with base (or a tail of it) as data
+// and typeX as the type.
+func (c *Ctx) convertsThroughHelper(fd *ast.FuncDecl, base, typeX string) bool {
+	found := false
+	ast.Inspect(fd.Body, func(n ast.Node) bool {
+		call, ok := n.(*ast.CallExpr)
+		if !ok {
+			return true
+		}
+		di, ti, ok := c.assignEachHelper(c.DeclOf(c.Callee(call)))
+		if !ok || di >= len(call.Args) || ti >= len(call.Args) {
+			return true
+		}
+		d := unparen(call.Args[di])
+		if se, ok := d.(*ast.SliceExpr); ok {
+			d = unparen(se.X)
+		}
+		if nosp(c.Src(d)) == nosp(base) && nosp(c.Src(call.Args[ti])) == nosp(typeX) {
+			found = true
+		}
+		return true
+	})
+	return found
+}
